@@ -356,7 +356,8 @@ class Base(_BaseClass):
                 bracket += 1
             elif '{' == val:
                 brace += 1
-            elif '(' == val:
+            elif '(' == val or Base._prods.FUNCTION == starttoken[0]:
+                # function( or single ( (counted like in the loop below)
                 parant += 1
 
         if tokenizer:
